@@ -120,6 +120,10 @@ type Config struct {
 	Shard    int           // this process
 	Shards   int           // number of processes (0/1 = no sharding)
 	ShardDepth int         // choice depth on which subtrees are distributed (default 2)
+	// ShardDeviations > 0 distributes subtrees by their first k non-default choices (position and
+	// alternative) instead of by the first ShardDepth choices: the right key when nearly all
+	// choices are 0 (fault enumeration). Executions with fewer than k deviations are shared.
+	ShardDeviations int
 	MaxExecs int           // safety cap (0 = none); hitting it sets Exhaustive=false
 }
 
@@ -194,6 +198,23 @@ func Run(cfg Config, body func(x *Exec, own bool)) Stats {
 func (r *Runner) owner(choices []int) (shard int, shared bool) {
 	if r.cfg.Shards == 1 {
 		return 0, false
+	}
+	if k := r.cfg.ShardDeviations; k > 0 {
+		h := fnv.New32a()
+		n := 0
+		for i, c := range choices {
+			if c != 0 {
+				h.Write([]byte{byte(i), byte(i >> 8), byte(c), byte(c >> 8)})
+				if n++; n == k {
+					v := h.Sum32() // (FNV's low bits alone are a poor spread for such short keys)
+					v ^= v >> 16
+					v *= 0x7feb352d
+					v ^= v >> 15
+					return int(v % uint32(r.cfg.Shards)), false
+				}
+			}
+		}
+		return 0, true
 	}
 	if len(choices) < r.cfg.ShardDepth {
 		return 0, true
